@@ -4,7 +4,10 @@ use crate::*;
 pub(crate) const DEFLAYER_ICON: [&str; 3] = ["icon", "🖻", "🖼"];
 pub(crate) type LayerIcons = HashMap<String, Option<String>>;
 
-pub fn parse_layer_opts(list: &[SExpr]) -> Result<HashMap<String, String>> {
+pub fn parse_layer_opts(
+    list: &[SExpr],
+    vars: &HashMap<String, SExpr>,
+) -> Result<HashMap<String, String>> {
     let mut layer_opts: HashMap<String, String> = HashMap::default();
     let mut opts = list.chunks_exact(2);
     for kv in opts.by_ref() {
@@ -12,7 +15,7 @@ pub fn parse_layer_opts(list: &[SExpr]) -> Result<HashMap<String, String>> {
         let val_expr = &kv[1];
         // Read k-v pairs from the configuration
         // todo: add hashmap for future options, currently only parse icons
-        let opt_key = key_expr.atom(None)
+        let opt_key = key_expr.atom(Some(vars))
             .ok_or_else(|| anyhow_expr!(key_expr, "No lists are allowed in {DEFLAYER} options"))
             .and_then(|opt_key| {
                 if DEFLAYER_ICON.iter().any(|&i| i == opt_key) {
@@ -33,7 +36,7 @@ pub fn parse_layer_opts(list: &[SExpr]) -> Result<HashMap<String, String>> {
         if layer_opts.contains_key(opt_key) {
             bail_expr!(key_expr, "Duplicate option found in {DEFLAYER}: {opt_key}");
         }
-        let opt_val = val_expr.atom(None).ok_or_else(|| {
+        let opt_val = val_expr.atom(Some(vars)).ok_or_else(|| {
             anyhow_expr!(
                 val_expr,
                 "No lists are allowed in {DEFLAYER}'s option values"
